@@ -1,8 +1,9 @@
 /-
-Props/C12.lean — soundness of the encoder: whatever `translate` ACCEPTS is a well-formed MC6809
-instruction of the announced size.  The direction opposite to C01: no intended operand is mentioned, only
-that the emitted bytes have length `pkg.size` and that the datasheet decoder reads exactly these bytes as
-one instruction of the row's operation.
+Props/C12.lean — soundness of the encoder: whatever is ACCEPTED is a well-formed MC6809 instruction of the
+announced size.  The direction opposite to C01: no intended operand is mentioned, only that the emitted bytes
+have length `pkg.size` and that the datasheet decoder reads exactly these bytes as one instruction of the
+row's operation.  "Accepted" = `translate` returns a package AND `fitWidth` (`Statement.fit_operand_width`)
+lets the statement through; a value that does not fit its field is rejected there (`C12_*_rejected`).
 -/
 import CoCoVerif.Props.C01
 
@@ -10,33 +11,47 @@ namespace CoCo.Props
 open CoCo CoCo.Asm CoCo.Spec.MC6809
 open CoCo.Gen (InstrRow)
 
-/-- every package `translate` returns for `o` emits `pkg.size` bytes which decode, as a whole, to one
-instruction of the row's operation -/
+/-- every package `translate` returns for `o`, on every statement carrying row, operand and package that
+passes `fitWidth`, emits `pkg.size` bytes which decode, as a whole, to one instruction of the row's operation -/
 def SoundEnc (o : Asm.Operand) (r : InstrRow) : Prop :=
   ∀ pkg, translateOperand o r = .ok pkg →
-    ∃ bytes, (∀ s : Stmt, s.pkg = pkg → stmtBytes s = some bytes) ∧ bytes.length = pkg.size ∧
-      ∃ x, decode bytes = some (⟨opOf r.mnemonic, x⟩, bytes.length)
+    ∀ s s' : Stmt, s.row = r → s.operand = o → s.pkg = pkg → fitWidth s = .ok s' →
+      ∃ bytes, stmtBytes s' = some bytes ∧ bytes.length = pkg.size ∧
+        ∃ x, decode bytes = some (⟨opOf r.mnemonic, x⟩, bytes.length)
 
-/-- operand classes whose bytes are final after `translate` (branches and PCR forms are completed later by
-the address pass; pseudo operations are C05) -/
+/-- operand classes whose bytes are final after `translate` and `fitWidth` (branches and PCR forms are completed
+by the address pass in between; pseudo operations are C05) -/
 def Immediate (o : Asm.Operand) : Prop :=
   o.kind = .inherent ∨ o.kind = .immediate ∨ o.kind = .direct ∨ o.kind = .extended ∨ o.kind = .extIndirect ∨
   o.kind = .indexed ∨ o.kind = .special
 
-/-- C12 at full strength: every accepted operand of these classes is well formed -/
+/-- a symbol table of EQU constants only (no labels): `fix_addresses` then has nothing to do -/
+def ConstTab (t : SymTab) : Prop := ∀ e ∈ t, e.2.isNumeric = true
+
+/-- C12 at full strength: every operand the FRONT END builds (`createOperand`, then `resolveOperand` against a
+table of constants) for a machine-instruction row, if accepted, is well formed.
+(The former statement quantified over ALL operand records, including ones no source text produces — e.g. a direct
+operand carrying a string, see `C12_unreachable_operand` — and was refuted by `LDD 100,X`; that counterexample
+is repaired, `C12_finding_16bit_row_offset_fixed`.)  Neither proved nor refuted in general; `C12_partial` is the
+proved part, `C12_fitted_size` the size half for every statement. -/
 def C12_Statement : Prop :=
-  ∀ r ∈ Gen.instructions, r.isPseudo = false → ∀ o, Immediate o → SoundEnc o r
+  ∀ r ∈ Gen.instructions, r.isPseudo = false → ∀ (text : Str) (t : SymTab) (o0 o : Asm.Operand), ConstTab t →
+    createOperand text r = .ok o0 → resolveOperand o0 r t = .ok o → Immediate o → SoundEnc o r
 
 theorem soundEnc_of_encodes {o : Asm.Operand} {r : InstrRow} {x : Spec.MC6809.Operand} (h : Encodes o r x) :
     SoundEnc o r := by
-  obtain ⟨pkg, bytes, ht, hb, hl, hd⟩ := h
-  intro pkg' ht'
+  obtain ⟨pkg, bytes, ht, _, hb, hl, hd⟩ := h
+  intro pkg' ht' s s' hr ho hp hf
   rw [ht] at ht'
   have : pkg = pkg' := by injection ht'
   subst this
-  exact ⟨bytes, hb, hl, x, hd⟩
+  obtain ⟨s'', hf', hb'⟩ := hb s hr ho hp
+  rw [hf] at hf'
+  have : s' = s'' := by injection hf'
+  subst this
+  exact ⟨bytes, hb', hl, x, hd⟩
 
-/-- C12 on the proved region of C01 (all classes; see `Region` for the restrictions) -/
+/-- C12 on the proved region of C01 (all classes; see `Region` for the two restrictions left) -/
 theorem C12_partial {r : InstrRow} (hr : r ∈ Gen.instructions) (hp : r.isPseudo = false) {o : Asm.Operand}
     {x : Spec.MC6809.Operand} (h : Region r o x) : SoundEnc o r :=
   soundEnc_of_encodes (C01_partial hr hp h)
@@ -45,79 +60,293 @@ theorem region_immediate {r : InstrRow} {o : Asm.Operand} {x : Spec.MC6809.Opera
     Immediate o := by
   cases h <;> simp_all [Immediate, Bracketed]
 
-/-- operands that are REJECTED are vacuously sound: `[,R+]`, `[,-R]`, and TFR / EXG of mixed width -/
+/-- operands that `translate` REJECTS are vacuously sound: `[,R+]`, `[,-R]`, and TFR / EXG of mixed width -/
 theorem C12_rejected {o : Asm.Operand} {r : InstrRow} {e : Exn} (h : translateOperand o r = .error e) :
     SoundEnc o r := by
   intro pkg hpkg
   rw [h] at hpkg
   exact absurd hpkg (by simp)
 
-/-! ### accepted but malformed -/
+/-- and so are the ones `fitWidth` rejects -/
+theorem C12_rejected_fit {o : Asm.Operand} {r : InstrRow}
+    (h : ∀ pkg, translateOperand o r = .ok pkg → ∀ s : Stmt, s.row = r → s.operand = o → s.pkg = pkg → fitWidth s = .diag) :
+    SoundEnc o r := by
+  intro pkg hpkg s s' hr ho hp hf
+  rw [h pkg hpkg s hr ho hp] at hf
+  cases hf
 
-theorem not_soundEnc_of_size {o : Asm.Operand} {r : InstrRow} {sz : Nat} {bytes : Bytes}
-    (h : sizeAndBytes o r = some (sz, bytes)) (hne : bytes.length ≠ sz) : ¬ SoundEnc o r := by
-  obtain ⟨pkg, ht, hsz, hb⟩ := sizeAndBytes_ok h
-  intro hs
-  obtain ⟨bytes', hb', hl', _⟩ := hs pkg ht
-  have h1 := hb' { (default : Stmt) with pkg := pkg } rfl
-  rw [stmtBytes_eq_pkgBytes] at h1
-  simp only at h1
-  rw [hb] at h1
-  have : bytes = bytes' := by injection h1
-  subst this
-  exact hne (by rw [hl', hsz])
+/-! ### values that do not fit are rejected (formerly accepted and malformed: findings A5, A7) -/
 
-/-- C12 at full strength does NOT hold: `LDD 100,X` is accepted with 4 bytes for size 3 -/
-theorem C12_Statement_false : ¬ C12_Statement := by
-  intro hall
-  obtain ⟨r, hr, hp, _, hs⟩ := lddOffset_row
-  exact not_soundEnc_of_size hs (by decide) (hall r hr hp lddOffset (by simp [Immediate, lddOffset]))
+/-- the package is built and then every statement carrying it is refused by `fitWidth` -/
+def RejectedByFit (o : Asm.Operand) (r : InstrRow) : Prop :=
+  ∃ pkg, translateOperand o r = .ok pkg ∧
+    ∀ s : Stmt, s.row = r → s.operand = o → s.pkg = pkg → fitWidth s = .diag
 
-/-- `(size, bytes, what the decoder reads)` of accepted statements whose bytes are not one instruction of
-the announced size -/
+theorem fitsByte_iff (i : Nat) (neg : Bool) :
+    fitsByte i neg = true ↔ (-128 ≤ signedVal i neg ∧ signedVal i neg ≤ 255) := by
+  cases neg <;> simp [fitsByte, signedVal] <;> omega
+
+theorem fitsWord_iff (i : Nat) (neg : Bool) :
+    fitsWord i neg = true ↔ (-32768 ≤ signedVal i neg ∧ signedVal i neg ≤ 65535) := by
+  cases neg <;> simp [fitsWord, signedVal] <;> omega
+
+section rejected
+variable {r : InstrRow} (hr : r ∈ Gen.instructions) (hp : r.isPseudo = false)
+include hr hp
+
+/-- **8-bit immediates: every value outside −128..255 is REJECTED** (`LDA #256`, `LDA #-129`, `LDA #-200`) -/
+theorem C12_imm8_out_of_range_rejected {o : Asm.Operand} {c i : Nat} {op : String} {h : Option Nat} {m : Mode}
+    {neg : Bool} (hk : o.kind = .immediate) (hc : r.imm = some c) (hl : lookup c = some (op, .imm8))
+    (hv : o.value = .numeric i h m neg) (hout : ¬ (-128 ≤ signedVal i neg ∧ signedVal i neg ≤ 255)) :
+    RejectedByFit o r := by
+  have hcell := cell_imm hr hp hc hl
+  have h0 := cell_ne_zero hcell.1 (by decide)
+  have hf : fitsByte i neg = false := by
+    cases hfb : fitsByte i neg
+    · rfl
+    · exact absurd ((fitsByte_iff i neg).mp hfb) hout
+  refine ⟨_, translateOperand_imm hk hc h0 (cell_lt hcell.1), ?_⟩
+  exact rejected_of_misfit (pb := []) (d := 2) hp (notSpecial_of_imm hr hc hl (Or.inl rfl)) hcell.1 rfl .none hv
+    (by simp [hcell.2, operandLen]; omega) (Or.inl rfl) (fitNum_byte_err hf)
+
+/-- 16-bit immediates: every value outside −32768..65535 is rejected -/
+theorem C12_imm16_out_of_range_rejected {o : Asm.Operand} {c i : Nat} {op : String} {h : Option Nat} {m : Mode}
+    {neg : Bool} (hk : o.kind = .immediate) (hc : r.imm = some c) (hl : lookup c = some (op, .imm16))
+    (hv : o.value = .numeric i h m neg) (hout : ¬ (-32768 ≤ signedVal i neg ∧ signedVal i neg ≤ 65535)) :
+    RejectedByFit o r := by
+  have hcell := cell_imm hr hp hc hl
+  have h0 := cell_ne_zero hcell.1 (by decide)
+  have hf : fitsWord i neg = false := by
+    cases hfb : fitsWord i neg
+    · rfl
+    · exact absurd ((fitsWord_iff i neg).mp hfb) hout
+  refine ⟨_, translateOperand_imm hk hc h0 (cell_lt hcell.1), ?_⟩
+  exact rejected_of_misfit (pb := []) (d := 4) hp (notSpecial_of_imm hr hc hl (Or.inr rfl)) hcell.1 rfl .none hv
+    (by simp [hcell.2, operandLen]; omega) (Or.inr rfl) (fitNum_word_err hf)
+
+/-- **a forced direct operand `<v` with v ≥ 256 is REJECTED** (`LDA <$1000`; also a negative one below −128) -/
+theorem C12_direct_out_of_range_rejected {o : Asm.Operand} {c i : Nat} {h : Option Nat} {m : Mode} {neg : Bool}
+    (hk : o.kind = .direct) (hc : r.dir = some c) (hv : o.value = .numeric i h m neg)
+    (hout : ¬ (-128 ≤ signedVal i neg ∧ signedVal i neg ≤ 255)) : RejectedByFit o r := by
+  have hcell := cell_dir hr hp hc
+  have hf : fitsByte i neg = false := by
+    cases hfb : fitsByte i neg
+    · rfl
+    · exact absurd ((fitsByte_iff i neg).mp hfb) hout
+  refine ⟨_, translateOperand_dir hk hc (cell_lt hcell.1), ?_⟩
+  exact rejected_of_misfit (pb := []) (d := 2) hp (notSpecial_of_dir hr hc) hcell.1 rfl .none hv
+    (by simp [hcell.2]; omega) (Or.inl rfl) (fitNum_byte_err hf)
+
+end rejected
+
+/-- the hypotheses of the rejection theorems are met by `LDA #256`, `LDA #-129` and `LDA <$1000`:
+kind and value of the operand the front end builds, and the cell of the row -/
+structure Built where
+  mnemonic : String
+  kind : OpKind
+  imm : Option Nat
+  dir : Option Nat
+  int : Nat
+  neg : Bool
+deriving DecidableEq, Repr
+
+def builtAs (mn operand : String) : Option Built :=
+  match asmOperand mn operand with
+  | some (r, o) => (match o.value with | .numeric i _ _ n => some ⟨r.mnemonic, o.kind, r.imm, r.dir, i, n⟩ | _ => none)
+  | none => none
+
+example : builtAs "LDA" "#256" = some ⟨"LDA", .immediate, some 0x86, some 0x96, 256, false⟩ := by decide +kernel
+example : builtAs "LDA" "#-129" = some ⟨"LDA", .immediate, some 0x86, some 0x96, 129, true⟩ := by decide +kernel
+example : builtAs "LDA" "<$1000" = some ⟨"LDA", .direct, some 0x86, some 0x96, 0x1000, false⟩ := by decide +kernel
+example : lookup 0x86 = some ("LDA", .imm8) := by decide +kernel
+
+/-! ### the size half of C12, for every statement -/
+
+theorem emitPairs_length : ∀ (n : Nat) (h : Str) (acc r : Bytes), emitPairs n h acc = some r → r.length = acc.length + n
+  | 0, _, acc, r, h => by simp [emitPairs] at h; subst h; simp
+  | n + 1, a :: b :: rest, acc, r, h => by
+    simp only [emitPairs] at h
+    have := emitPairs_length n rest _ r h
+    simp at this; omega
+  | _ + 1, [], _, _, h => by simp [emitPairs] at h
+  | _ + 1, [_], _, _, h => by simp [emitPairs] at h
+
+/-- `get_binary_array` reads `(hex_len + 1) / 2` bytes of a value -/
+theorem emitValue_length {v : Value} {l : Nat} {bytes : Bytes} (hl : v.hexLen? = some l) (he : emitValue v = some bytes) :
+    bytes.length = (l + 1) / 2 := by
+  unfold emitValue at he
+  rw [hl] at he
+  cases hh : v.hex? with
+  | none => rw [hh] at he; cases he
+  | some hx =>
+    rw [hh] at he
+    have := emitPairs_length _ _ _ _ he
+    simpa using this
+
+/-- **C12, size**: for every instruction statement (neither pseudo operation nor register-operand instruction)
+with a numeric operand field that passes `fitWidth`, the emitted bytes are exactly `pkg.size` many — op code digits
+plus post byte digits plus field digits are `2 * size`.  (`a`, `b`: the hex lengths of op code and post byte, even
+for everything `translate` builds: `NumericValue(code)` prints an even number of digits.) -/
+theorem C12_fitted_size {s s' : Stmt} (hp : s.row.isPseudo = false) (hsp : s.row.isSpecial = false)
+    (hnum : s.pkg.additional.isNumeric = true) (hf : fitWidth s = .ok s') {a b : Nat}
+    (ha : s.pkg.opCode.hexLen? = some a) (hb : s.pkg.postByte.hexLen? = some b) (hae : a % 2 = 0) (hbe : b % 2 = 0)
+    {bytes : Bytes} (hbytes : stmtBytes s' = some bytes) : bytes.length = s.pkg.size ∧ s'.pkg.size = s.pkg.size := by
+  obtain ⟨p', hfp, rfl⟩ := fitWidth_ok_iff.mp hf
+  have hrow : ((s.row.isPseudo && !(s.row.isMultiByte || s.row.isMultiWord)) || s.row.isSpecial) = false := by
+    simp [hp, hsp]
+  cases hadd : s.pkg.additional with
+  | numeric n h m neg =>
+    by_cases hd : (2 * (s.pkg.size : Int) - a - b = 2 ∨ 2 * (s.pkg.size : Int) - a - b = 4)
+    · obtain ⟨d, hd2, hdsz⟩ : ∃ d : Nat, (d = 2 ∨ d = 4) ∧ 2 * s.pkg.size = a + b + d := by
+        rcases hd with h2 | h4
+        · exact ⟨2, Or.inl rfl, by omega⟩
+        · exact ⟨4, Or.inr rfl, by omega⟩
+      rw [fitPkg_numeric hrow hadd ha hb hdsz hd2] at hfp
+      cases hfn : fitNum n neg d with
+      | error e => rw [hfn] at hfp; cases hfp
+      | ok v =>
+        rw [hfn] at hfp
+        have hp' : p' = { s.pkg with additional := v } := by injection hfp with e; exact e.symm
+        subst hp'
+        obtain ⟨w, rfl⟩ := fitNum_shape hfn
+        rw [stmtBytes_eq_pkgBytes] at hbytes
+        simp only [pkgBytes] at hbytes
+        cases h1 : emitValue s.pkg.opCode with
+        | none => simp [h1] at hbytes
+        | some x =>
+          cases h2 : emitValue s.pkg.postByte with
+          | none => simp [h1, h2] at hbytes
+          | some y =>
+            cases h3 : emitValue (Value.numeric w (some d) .extended false) with
+            | none => simp [h1, h2, h3] at hbytes
+            | some z =>
+              simp [h1, h2, h3] at hbytes
+              subst hbytes
+              have l1 := emitValue_length ha h1
+              have l2 := emitValue_length hb h2
+              have l3 := emitValue_length (v := Value.numeric w (some d) .extended false) (l := d) rfl h3
+              refine ⟨?_, rfl⟩
+              simp only [List.length_append, l1, l2, l3]
+              omega
+    · rw [fitPkg_badWidth hrow hadd ha hb hd] at hfp
+      cases hfp
+  | _ => rw [hadd] at hnum; simp [Value.isNumeric] at hnum
+
+/-! ### the hex lengths `C12_fitted_size` asks to be even: everything `opVal` / `numV` build is
+
+Every `translate` of the model sets `opCode` to an `opVal` result and `postByte` to a `numV` result (or leaves the
+default `NoneValue`, hex length 0). -/
+
+/-- a value with an even `hex_len()` -/
+def EvenHex (v : Value) : Prop := ∃ a, v.hexLen? = some a ∧ a % 2 = 0
+
+theorem evenHex_none : EvenHex .none := ⟨0, rfl, rfl⟩
+
+/-- `NumericValue(int)` without size hint: `hex_len()` is 2 below 256, else the digit count rounded up to even -/
+theorem evenHex_numericOfInt {v : Int} {x : Value} (h : numericOfInt v none .none = .ok x) : EvenHex x := by
+  unfold numericOfInt at h
+  split at h
+  · cases h
+  · simp only [initHint, postInit] at h
+    by_cases hlt : v.natAbs < 256
+    · simp [hlt] at h
+      subst h
+      exact ⟨2, rfl, rfl⟩
+    · simp [hlt] at h
+      subst h
+      refine ⟨_, rfl, ?_⟩
+      simp only [numHexLen]
+      split <;> simp_all <;> omega
+
+theorem evenHex_numV {v : Nat} {x : Value} (h : numV v = .ok x) : EvenHex x := evenHex_numericOfInt h
+
+theorem evenHex_opVal {o : Option Nat} {x : Value} (h : opVal o = .ok x) : EvenHex x := by
+  cases o with
+  | none => cases h
+  | some v => exact evenHex_numericOfInt h
+
+/-- `C12_fitted_size` with the evenness hypotheses in this form -/
+theorem C12_fitted_size_even {s s' : Stmt} (hp : s.row.isPseudo = false) (hsp : s.row.isSpecial = false)
+    (hnum : s.pkg.additional.isNumeric = true) (hf : fitWidth s = .ok s') (ho : EvenHex s.pkg.opCode)
+    (hb : EvenHex s.pkg.postByte) {bytes : Bytes} (hbytes : stmtBytes s' = some bytes) :
+    bytes.length = s.pkg.size := by
+  obtain ⟨a, ha, hae⟩ := ho
+  obtain ⟨b, hb', hbe⟩ := hb
+  exact (C12_fitted_size hp hsp hnum hf ha hb' hae hbe hbytes).1
+
+/-- the hypotheses of `C12_fitted_size` hold for `LDD 100,X` (op code `EC`, post byte `88`, size 3: the field
+has 2 digits) -/
+def fittedSizeHyps (o : Asm.Operand) (r : InstrRow) : Bool :=
+  match translateOperand o r with
+  | .ok pkg =>
+    !r.isPseudo && !r.isSpecial && pkg.additional.isNumeric && pkg.opCode.hexLen? == some 2 &&
+    pkg.postByte.hexLen? == some 2 && pkg.size == 3 && (fitWidth (mkStmt r o pkg)).isOk
+  | .error _ => false
+
+example : ∃ r ∈ Gen.instructions, r.mnemonic = "LDD" ∧ fittedSizeHyps lddOffset r = true := by decide +kernel
+
+/-! ### repaired findings: what used to be accepted and malformed -/
+
+/-- `(size, bytes, what the decoder reads)` of accepted statements -/
 def malformed (mn operand : String) : Option (Nat × Bytes × Option (Instr × Nat)) :=
   (asmOne mn operand).map fun p => (p.1, p.2, decode p.2)
 
-/-- size 3, four bytes; the decoder reads `LDD 0,X` (8-bit offset 0) and stops after 3 -/
-theorem C12_finding_16bit_row_offset :
-    malformed "LDD" "100,X" = some (3, [0xEC, 0x88, 0x00, 0x64], some (⟨"LDD", .idx (.off 0 0 false 8)⟩, 3)) := by
+/-- REPAIRED (formerly `C12_finding_16bit_row_offset`: size 3, four bytes): three bytes, read back in full -/
+theorem C12_finding_16bit_row_offset_fixed :
+    malformed "LDD" "100,X" = some (3, [0xEC, 0x88, 0x64], some (⟨"LDD", .idx (.off 0 100 false 8)⟩, 3)) := by
   decide +kernel
 
-/-- size 2, three bytes -/
-theorem C12_finding_neg8_offset :
-    malformed "LDA" "-17,X" = some (2, [0xA6, 0x88, 0xEF], some (⟨"LDA", .idx (.off 0 (-17) false 8)⟩, 3)) := by
+/-- REPAIRED (formerly `C12_finding_neg8_offset`: size 2, three bytes): size 3 -/
+theorem C12_finding_neg8_offset_fixed :
+    malformed "LDA" "-17,X" = some (3, [0xA6, 0x88, 0xEF], some (⟨"LDA", .idx (.off 0 (-17) false 8)⟩, 3)) := by
   decide +kernel
 
-/-- size 2, four bytes -/
-theorem C12_finding_neg16_offset :
-    malformed "LDA" "-200,X" = some (2, [0xA6, 0x89, 0xFF, 0x38], some (⟨"LDA", .idx (.off 0 (-200) false 16)⟩, 4)) := by
+/-- REPAIRED (formerly `C12_finding_neg16_offset`: size 2, four bytes): size 4 -/
+theorem C12_finding_neg16_offset_fixed :
+    malformed "LDA" "-200,X" = some (4, [0xA6, 0x89, 0xFF, 0x38], some (⟨"LDA", .idx (.off 0 (-200) false 16)⟩, 4)) := by
   decide +kernel
 
-/-- size 2, three bytes: the decoder reads `LDA #1` and leaves a stray `$00` -/
-theorem C12_finding_imm8_256 :
-    malformed "LDA" "#256" = some (2, [0x86, 0x01, 0x00], some (⟨"LDA", .imm 8 1⟩, 2)) := by decide +kernel
+/-- REPAIRED (formerly `C12_finding_imm8_256`: size 2, three bytes): rejected -/
+theorem C12_finding_imm8_256_fixed : malformed "LDA" "#256" = none := by decide +kernel
 
-/-- size 4, three bytes: truncated `[address]`, undecodable -/
-theorem C12_finding_extInd_hint2 : malformed "LDA" "[$10]" = some (4, [0xA6, 0x9F, 0x10], none) := by
+/-- REPAIRED (formerly `C12_finding_extInd_hint2`: size 4, three bytes, undecodable): four bytes, `[$0010]` -/
+theorem C12_finding_extInd_hint2_fixed :
+    malformed "LDA" "[$10]" = some (4, [0xA6, 0x9F, 0x00, 0x10], some (⟨"LDA", .idx (.extInd 0x10)⟩, 4)) := by
   decide +kernel
 
-/-- size 2, three bytes -/
-theorem C12_finding_explicit_direct_wide :
-    malformed "LDA" "<$1000" = some (2, [0x96, 0x10, 0x00], some (⟨"LDA", .dir 0x10⟩, 2)) := by decide +kernel
+/-- REPAIRED (formerly `C12_finding_explicit_direct_wide`: size 2, three bytes): rejected -/
+theorem C12_finding_explicit_direct_wide_fixed : malformed "LDA" "<$1000" = none := by decide +kernel
 
-/-- for contrast, a correct rejection: `STA #5` (the immediate cell of STA is empty) -/
+/-- for contrast, a rejection by `translate`: `STA #5` (the immediate cell of STA is empty) -/
 theorem C12_store_immediate_rejected : asmOne "STA" "#5" = none := by decide +kernel
 
-/-- well-formed but WRONG: `LDA #-200` assembles to `LDA #$FF` without a diagnostic -/
-theorem C12_finding_imm8_neg_wide :
-    malformed "LDA" "#-200" = some (2, [0x86, 0xFF], some (⟨"LDA", .imm 8 0xFF⟩, 2)) := by decide +kernel
+/-- REPAIRED (formerly `C12_finding_imm8_neg_wide`: `LDA #-200` assembled to `LDA #$FF`): rejected -/
+theorem C12_finding_imm8_neg_wide_fixed : malformed "LDA" "#-200" = none := by decide +kernel
 
-/-- well-formed but WRONG: `PSHU S` pushes nothing (post byte 0) -/
+/-- STILL A FINDING (A10), well-formed but WRONG: `PSHU S` pushes nothing (post byte 0) -/
 theorem C12_finding_push_S :
     malformed "PSHU" "S" = some (2, [0x36, 0x00], some (⟨"PSHU", .list 0⟩, 2)) := by decide +kernel
+
+/-- STILL A FINDING (A9), well-formed but of doubtful meaning: a NUMBER before `,PCR` is taken as the offset
+itself, not as a target address -/
+theorem C12_finding_numeric_pcr :
+    malformed "LDA" "5,PCR" = some (3, [0xA6, 0x8C, 0x05], some (⟨"LDA", .idx (.pcr 5 false 8)⟩, 3)) := by
+  decide +kernel
+
+/-- why `C12_Statement` speaks about operands the front end builds: an operand RECORD no source text produces
+(a direct operand carrying a string) is accepted with four bytes for an announced size of two -/
+theorem C12_unreachable_operand : ∃ r ∈ Gen.instructions, r.isPseudo = false ∧
+    sizeAndBytes { kind := .direct, text := [], value := .str "ABC".toList } r = some (2, [0x96, 0x41, 0x42, 0x43]) := by
+  decide +kernel
 
 end CoCo.Props
 
 section axioms
 open CoCo.Props
+#print axioms C12_partial
+#print axioms C12_imm8_out_of_range_rejected
+#print axioms C12_imm16_out_of_range_rejected
+#print axioms C12_direct_out_of_range_rejected
+#print axioms C12_fitted_size
+#print axioms C12_fitted_size_even
 end axioms
